@@ -54,7 +54,8 @@ HasGap(t, n) == IF SortedT(t) /\ DisjointT(t) THEN HasGapSorted(t, n) ELSE HasGa
      AllocRecorded   a successful allocation is not the entry [ret, n] in the table, or was placed on
                      space that was not free
      LiveKept        an operation lost or changed an allocation it was not asked to free
-     FreeExact       free(off) of a live offset did not remove exactly that entry                        *)
+     FreeExact       free(off) of a live offset did not remove exactly that entry
+     ResetClears     reset() (= free of every allocated offset) left entries in the table                 *)
 TableBad(t) ==   (IF SortedT(t)   THEN {} ELSE {"Sorted"})
             \cup (IF DisjointT(t) THEN {} ELSE {"Disjoint"})
             \cup (IF InRegionT(t) THEN {} ELSE {"InRegion"})
@@ -70,6 +71,7 @@ StepBad(o, k) ==
            ELSE (IF [off |-> ev.ret, len |-> ev.n] \in Live(post) /\ FreeT(pre, ev.ret, ev.n)
                    THEN {} ELSE {"AllocRecorded"}))
         \cup (IF Live(pre) \subseteq Live(post) THEN {} ELSE {"LiveKept"})
+   ELSE IF ev.op = "reset" THEN (IF ev.ret = 0 /\ post = <<>> THEN {} ELSE {"ResetClears"})
    ELSE IF ev.n \notin {e.off : e \in Live(pre)} THEN {}      \* not a free of an allocated offset: outside the statement
    ELSE (IF ev.ret = 0 /\ Live(post) = {e \in Live(pre) : e.off # ev.n} /\ Len(post) = Len(pre) - 1
            THEN {} ELSE {"FreeExact"}))
